@@ -540,11 +540,19 @@ pub fn generate(seed: u64, k_seeds: usize) -> Sc {
     if r.chance(1, 40) && !all_rows.is_empty() {
         for _ in 0..r.range(1, 2) {
             let i = r.below(all_rows.len() as u64) as usize;
-            match r.below(4) {
+            match r.below(8) {
                 0 => all_rows[i].1[C_SHARES] = "abc".to_string(),
                 1 => all_rows[i].1[C_ACTION] = "Exchange".to_string(),
                 2 => all_rows[i].1[C_TRADE] = "2020-13-45".to_string(),
-                _ => all_rows[i].1[C_AMT] = "-5".to_string(),
+                3 => all_rows[i].1[C_AMT] = "-5".to_string(),
+                4 => all_rows[i].1[C_SEC] = String::new(),
+                5 => all_rows[i].1[C_ACTION] = String::new(),
+                6 => all_rows[i].1[C_SPLIT] = "two-for-one".to_string(),
+                _ => {
+                    all_rows[i].1[C_CUR] = "USD".to_string();
+                    all_rows[i].1[C_FX] = String::new();
+                    all_rows[i].1[C_ACTION] = "SfLA".to_string();
+                }
             }
         }
     }
